@@ -148,7 +148,7 @@ func genVT(r *rand.Rand, auths []mAuth, depth int, nWraps int) *vt {
 	if depth <= 0 {
 		return &vt{Kind: vLeaf, Auth: randAuth(r, auths)}
 	}
-	switch k := r.Intn(12); {
+	switch k := r.Intn(13); {
 	case k < 2:
 		return &vt{Kind: vVarr, Child: genVT(r, auths, depth-1, nWraps)}
 	case k < 6: // constant-sized arrays are the rarely exercised kind: weight them
@@ -161,7 +161,7 @@ func genVT(r *rand.Rand, auths []mAuth, depth int, nWraps int) *vt {
 			return c
 		}
 		return &vt{Kind: vOpt, Child: c}
-	case k < 10:
+	case k < 11:
 		c := genVT(r, auths, depth-1, nWraps)
 		if c.Kind == vLeaf || c.Kind == vRef || c.Kind == vOpt {
 			return &vt{Kind: vVarr, Child: c}
